@@ -420,6 +420,38 @@ func ParseCivil(layout, s string) (unix int64, valid bool, modelled bool) {
 				off = -off
 			}
 		}
+	case "2006-1-2", "2006-1-2 15:4:5":
+		// non-padded layout elements accept one OR two digits (Go's time.Parse)
+		datePart, timePart := s, ""
+		if layout == "2006-1-2 15:4:5" {
+			i := strings.IndexByte(s, ' ')
+			if i < 0 {
+				return 0, false, true
+			}
+			datePart, timePart = s[:i], s[i+1:]
+		}
+		f := strings.Split(datePart, "-")
+		if len(f) != 3 || len(f[0]) != 4 || len(f[1]) < 1 || len(f[1]) > 2 || len(f[2]) < 1 || len(f[2]) > 2 {
+			return 0, false, true
+		}
+		y, ok[0] = num(f[0], 4)
+		mo, ok[1] = num(f[1], len(f[1]))
+		d, ok[2] = num(f[2], len(f[2]))
+		ok[3], ok[4], ok[5] = true, true, true
+		if timePart != "" || layout == "2006-1-2 15:4:5" {
+			t := strings.Split(timePart, ":")
+			if len(t) != 3 || len(t[0]) != 2 {
+				return 0, false, true
+			}
+			for _, x := range t[1:] {
+				if len(x) < 1 || len(x) > 2 {
+					return 0, false, true
+				}
+			}
+			h, ok[3] = num(t[0], 2)
+			mi, ok[4] = num(t[1], len(t[1]))
+			se, ok[5] = num(t[2], len(t[2]))
+		}
 	default:
 		return 0, false, false
 	}
